@@ -222,6 +222,12 @@ pub fn run_case(case: &J, modules: &HashMap<PathBuf, String>, outdir: &Path) -> 
     // ---- compile ----
     let opt = case.get("opt").and_then(|o| o.as_bool()).unwrap_or(true);
     verif::set_opt_off(!opt);
+    // compile-time events (optimizer rewrites, assembler) need the sink before compile_bytecode
+    let early_flags = case.get("trace").and_then(|t| t.as_u64()).unwrap_or(0) as u32;
+    let early_sink = early_flags & (verif::T_OPT | verif::T_ASM) != 0;
+    if early_sink {
+        verif::install(early_flags);
+    }
     let files = files_of(case, modules);
     let compiled = catch_unwind(AssertUnwindSafe(|| {
         compile_bytecode(&main, MockFileProvider::new(files))
@@ -301,7 +307,7 @@ pub fn run_case(case: &J, modules: &HashMap<PathBuf, String>, outdir: &Path) -> 
     }
     let live0 = alloc_count::live();
     let out0 = alloc_count::outstanding();
-    if trace_flags != 0 {
+    if trace_flags != 0 && !early_sink {
         verif::install(trace_flags);
     }
 
